@@ -257,6 +257,24 @@ def run(res, replay=None):
         res.distribution = {"histories": len(lines), "calls": nops}
     res.samples = [lines[-1][:400]] if lines else []
     if not replay:
+        # several users on one small pool over a disk whose reads take time (harness/c13c.go): every fetch must return the bytes of the
+        # last completed write of that page (per-page counters against a shadow array updated under the page latch)
+        import subprocess
+        rngc = random.Random(res.seed * 7919 + 13)
+        for fr, npg, users, nops in [(6, 24, 4, 3000), (4, 12, 3, 2000), (10, 40, 8, 1500)] * (1 if res.tier == "quick" else 6):
+            try:
+                p = subprocess.run([HARNESS_BIN, "c13c", "-", str(fr), str(npg), str(users), str(nops), str(rngc.randrange(10**6)), "90"], capture_output=True, text=True, timeout=240,
+                                   env=dict(os.environ, GOMAXPROCS=str(rngc.choice([4, 8, 16]))))
+                cl = p.stdout.strip().split("\n")
+            except subprocess.TimeoutExpired:
+                cl = ["VIOLATION the concurrent pool workload did not finish"]
+            if not any(l.startswith("DONE") for l in cl) and not any(l.startswith("VIOLATION") for l in cl):
+                cl.append("VIOLATION the workload died: " + (p.stderr.strip().split("\n")[0][:200] if p.stderr else "no output"))
+            res.note_case("c13c|%d|%d|%d|%d" % (fr, npg, users, len(res.extra.get("concurrent_pool_runs", []))), True)
+            res.extra.setdefault("concurrent_pool_runs", []).append(cl[-1])
+            for v in [l for l in cl if l.startswith("VIOLATION")][:2]:
+                if len(res.oracle_failures) < 5:
+                    res.oracle_failures.append(("verifharness c13c - %d %d %d %d <seed> 90" % (fr, npg, users, nops), "%d users on a %d-frame pool over %d pages, slow disk reads: %s" % (users, fr, npg, v[10:])))
         # the engine's own pool users under eviction pressure (lib/pressure.py) + contract monitor (hook H5, reported by vlib.finish)
         import pressure
         for fr in ([12, 20] if res.tier == "quick" else [10, 12, 16, 24, 40]):
